@@ -406,6 +406,7 @@ type MutOpt struct {
 	AllByteValues bool // every byte position x all 256 values (otherwise the 12 replacement values)
 	Pairs         bool // additionally (window fault | truncation) x single-byte fault pairs
 	PairStride    int  // pairs: only every PairStride-th byte position for the second fault (1 = all)
+	WindowsOnly   bool // only the seed, the truncations and the 16/32-bit window faults (allocation pass)
 }
 
 var repl12 = func(b byte) [12]byte {
@@ -454,7 +455,7 @@ func Mutants(seed []byte, opt MutOpt, w, W int, fn func(m []byte, note string)) 
 	if take() {
 		fn(reset(), "seed")
 	}
-	for p := 0; p < n; p++ {
+	for p := 0; p < n && !opt.WindowsOnly; p++ {
 		if opt.AllByteValues {
 			for v := 0; v < 256; v++ {
 				if byte(v) == seed[p] {
@@ -797,6 +798,9 @@ type Plan struct {
 	TailFull     int // garbage tails up to this length over the full alphabet at every cut position of every seed
 	TailBoundary int // and up to this length over Boundary
 	SkipAlloc    bool
+	// AllocFilter restricts the single-threaded allocation pass (nil = every seed x entry)
+	AllocFilter func(s *Seed, e *Entry) bool
+	AllocOpt    MutOpt
 }
 
 // Run executes the plan: parallel crash/over-read/input-integrity phases, then the
@@ -813,6 +817,8 @@ func (p *Plan) Run(r *vr.Report) {
 	r.Bounds["tail_full_alphabet_len"] = p.TailFull
 	r.Bounds["tail_boundary_alphabet_len"] = p.TailBoundary
 	r.Bounds["slack_poison_bytes"] = Slack
+	r.Bounds["alloc_pass_windows_and_truncations_only"] = p.AllocOpt.WindowsOnly
+	r.Bounds["alloc_pass_filtered"] = p.AllocFilter != nil
 	r.Extra["all_strings_count_per_entry"] = CountStrings(len(p.StrAlpha), 0, p.StrMaxLen)
 	if len(p.Entries2) > 0 {
 		r.Bounds["reduced_strings_entry_points"] = len(p.Entries2)
@@ -912,11 +918,18 @@ func (p *Plan) Run(r *vr.Report) {
 		s := &p.Seeds[si]
 		var in [][]byte
 		var notes []string
-		Mutants(s.Data, MutOpt{}, 0, 1, func(m []byte, note string) {
-			in = append(in, append([]byte(nil), m...))
-			notes = append(notes, s.Name+" "+note)
-		})
+		built := false
 		for _, e := range s.Entries {
+			if p.AllocFilter != nil && !p.AllocFilter(s, e) {
+				continue
+			}
+			if !built {
+				built = true
+				Mutants(s.Data, p.AllocOpt, 0, 1, func(m []byte, note string) {
+					in = append(in, append([]byte(nil), m...))
+					notes = append(notes, s.Name+" "+note)
+				})
+			}
 			d, at := c.AllocScan(e, in, notes)
 			total += len(in)
 			if d > max {
